@@ -99,7 +99,9 @@ def judge(prog, hist):
     from vmon.models import loop_contract
 
     c = CFG[prog["mode"]]
-    return loop_contract.check(hist, prog["mode"], c["eps_due"], c["res_order"], c["qwait"])
+    # TrioEventLoop.run() clears the idle callbacks when it exits (_handle_main_loop_exception); every other
+    # restartable loop keeps them, so an idle callback registered for the first run() is still owed in the second
+    return loop_contract.check(hist, prog["mode"], c["eps_due"], c["res_order"], c["qwait"], idles_survive=prog["loop"] != "trio")
 
 
 def run_once(prog):
@@ -152,11 +154,30 @@ class Tally:
         self.count("api_calls", sum(1 for ev in hist if ev["e"] == "call"))
         if mode == "virtual":
             self.count("virtual_blocks", sum(1 for ev in hist if ev["e"] == "block"))
-        if sum(1 for ev in hist if ev["e"] == "run_begin") > 1:
+        # how did each run() that was followed by another run() on the same loop object end?
+        ends = [i for i, ev in enumerate(hist) if ev["e"] == "run_end"]
+        begins = [i for i, ev in enumerate(hist) if ev["e"] == "run_begin"]
+        if len(begins) > 1:
             self.count("programs_with_second_run")
+            self.count(f"programs_with_second_run:{lp}")
+        if len(begins) > 2:
+            self.count("programs_with_third_run")
+        for k in range(len(begins) - 1):
+            first = next((ev for ev in hist[begins[k] : ends[k]] if ev["e"] == "exit" and ev["raised"] is not None), None)
+            if first is None:
+                kind = "nothing-raised"
+            else:
+                what = "exit" if first["raised"]["type"] == "ExitMainLoop" else ("boom" if first["raised"]["type"] == "Boom" else "other")
+                kind = f"{what}-from-" + ("final-alarm" if first["id"][0] == "X" else f"{first['kind']}-callback")
+            self.count(f"rerun_after:{kind}")
+            self.count(f"rerun_after:{kind}:{lp}")
+            self.count("callbacks_entered_in_later_runs", sum(1 for ev in hist[begins[k + 1] :] if ev["e"] == "enter") if k == 0 else 0)
         for k, n in res.evals.items():
             self.count(f"eval:{k}", n)
             self.count(f"eval:{k}:{lp}", n)
+        for k, n in res.evals_later.items():
+            self.count(f"eval_later_run:{k}", n)
+            self.count(f"eval_later_run:{k}:{lp}", n)
         for k, n in res.obs.items():
             self.count(f"obs:{lp}:{k}", n)
         return ent
